@@ -568,10 +568,15 @@ class SigmaDetections:
         detections = {
             identifier: detection.to_plain() for identifier, detection in self.detections.items()
         }
-        if len(self.condition) > 1:
-            condition: str | list[str] = self.condition
+        # The conditions could have been changed by processing pipelines (e.g. added conditions)
+        conditions = [
+            parsed_condition.condition
+            for parsed_condition in getattr(self, "parsed_condition", [])
+        ] or self.condition
+        if len(conditions) > 1:
+            condition: str | list[str] = conditions
         else:
-            condition = self.condition[0]
+            condition = conditions[0]
 
         return {
             **detections,
